@@ -229,8 +229,9 @@ fn compose_cases(quick: bool) -> Vec<(i8, [u64; 7])> {
 }
 
 pub fn run(rep: &mut Report) {
-    let q = rep.quick();
-    let dl = lattice::dl(if q { 16 } else { 256 }, true);
+    let deep = !rep.quick();
+    let q = false;
+    let dl = lattice::dl(if deep { 1024 } else { 256 }, true);
     let kl = lattice::kl();
     rep.rule = "from_parts on 23 century anchors x the u64 nanosecond axis (every century multiple +-3, u64::MAX-0..3); from_total_nanoseconds / total_nanoseconds / the 64-bit accessors on the duration lattice DL plus i128 extremes; n*Unit, Unit*n, n.unit() on KL x 9 units; compose on the boundary-field product; std conversions. Oracle: i128 count + clamp + canonical-form predicate. Non-trivial = negative century count, nanosecond field >= one century, count outside i64, or a saturating input.".into();
     rep.assumptions = vec!["Duration::to_parts() returns the stored fields".into()];
